@@ -3,7 +3,7 @@ from ..frontend import AnalysisBroken
 from ..core import queries as Q
 from ..core.own import Own, HEAP_PRODUCERS, JSON_PRODUCERS, EXT_DEREF
 from ..core.program import fmt_term, fmt_atom, CAST_OPS
-from . import c02, c04, c07, c08, c11, c13
+from . import c01, c02, c04, c07, c08, c11, c13
 
 META = {
     "explanation": (
@@ -550,3 +550,4 @@ def run(ctx):
         c08.clause2_who(ctx, P)
         c11.clause3_no_release(ctx, P, cg)
         c13.clause2_hook(ctx, P, cg)
+        c01.clause9_refused_fetch_is_gone(ctx, P, cg)
